@@ -144,8 +144,209 @@ func init() {
 			}
 			sb.WriteString("def " + m.lean + " : List String := " + LeanStrList(assignedFields(fd)) + "\n")
 		}
+		// where a caller's slice argument ends up: the calls that receive it (builtins that only read the
+		// header excluded) and the fields it is stored in ("store:<field>"), in source order
+		_, swr, err := ParseFile(repo, "pkg/stream/writer.go")
+		if err != nil {
+			return "", err
+		}
+		sb.WriteString("\n-- sinks of the caller's slice parameter (who gets the []byte / []int an encoder is given)\n")
+		for _, m := range []struct {
+			f          *ast.File
+			recv, name string
+			lean       string
+		}{
+			{snp, "snappyWriter", "Write", "snappyWriterWriteSinks"},
+			{swr, "writer", "PutBytes", "streamWriterPutBytesSinks"},
+			{swr, "writer", "Write", "streamWriterWriteSinks"},
+			{tsds, "tsdStreamWriter", "WriteField", "tsdStreamWriterWriteFieldSinks"},
+			{fo, "FixedOffsetEncoder", "FromValues", "fixedOffsetFromValuesSinks"},
+			{snp, "snappyReader", "Uncompress", "snappyReaderUncompressSinks"},
+		} {
+			fd := FindFunc(m.f, m.recv, m.name)
+			if fd == nil {
+				return "", fmt.Errorf("method %s.%s not found", m.recv, m.name)
+			}
+			sinks, err := sliceParamSinks(fd)
+			if err != nil {
+				return "", fmt.Errorf("%s.%s: %v", m.recv, m.name, err)
+			}
+			sb.WriteString("def " + m.lean + " : List String := " + LeanStrList(sinks) + "\n")
+		}
+		for _, m := range []struct {
+			f          *ast.File
+			recv, name string
+			lean       string
+		}{
+			{snp, "snappyWriter", "Close", "snappyWriterCloseCalls"},
+			{tsds, "tsdStreamWriter", "WriteField", "tsdStreamWriterWriteFieldCalls"},
+		} {
+			fd := FindFunc(m.f, m.recv, m.name)
+			if fd == nil {
+				return "", fmt.Errorf("method %s.%s not found", m.recv, m.name)
+			}
+			sb.WriteString("def " + m.lean + " : List String := " + LeanStrList(CallSeq(fd)) + "\n")
+		}
+		// what the deferred function literal of snappyReader.Uncompress re-initialises (CallSeq prints only "defer:?")
+		if fd := FindFunc(snp, "snappyReader", "Uncompress"); fd == nil {
+			return "", fmt.Errorf("snappyReader.Uncompress not found")
+		} else {
+			sb.WriteString("\n/-- calls inside the deferred function literal(s) of `snappyReader.Uncompress`, in source order -/\n")
+			sb.WriteString("def snappyReaderUncompressDeferred : List String := " + LeanStrList(deferredLitCalls(fd)) + "\n")
+		}
+		// statement shape of TSDDecoder.reset: which assignments run on the first-use path and on the re-arm path
+		if fd := FindFunc(tsd, "TSDDecoder", "reset"); fd == nil {
+			return "", fmt.Errorf("TSDDecoder.reset not found")
+		} else {
+			sb.WriteString("\n/-- statement shape of `TSDDecoder.reset`: `if{…}else{…}`, `set:<field>`, `call:<f>`, `return`, in source order -/\n")
+			sb.WriteString("def tsdDecoderPrivateResetShape : List String := " + LeanStrList(stmtShape(fd.Body.List)) + "\n")
+		}
 		return sb.String(), nil
 	}})
+}
+
+// deferredLitCalls lists the calls made inside `defer func() { ... }()` literals of fd (top level of the body).
+func deferredLitCalls(fd *ast.FuncDecl) []string {
+	var out []string
+	for _, st := range fd.Body.List {
+		ds, ok := st.(*ast.DeferStmt)
+		if !ok {
+			continue
+		}
+		fl, ok := ds.Call.Fun.(*ast.FuncLit)
+		if !ok {
+			out = append(out, exprName(ds.Call.Fun))
+			continue
+		}
+		ast.Inspect(fl.Body, func(n ast.Node) bool {
+			if ce, ok := n.(*ast.CallExpr); ok {
+				out = append(out, exprName(ce.Fun))
+			}
+			return true
+		})
+	}
+	return out
+}
+
+// stmtShape flattens a statement list: assignments to selector expressions become "set:<field>", expression
+// statements that are calls "call:<name>", returns "return", an if statement "if{" … "}else{" … "}" around the
+// shapes of its branches; anything else "stmt".
+func stmtShape(list []ast.Stmt) []string {
+	var out []string
+	for _, st := range list {
+		switch x := st.(type) {
+		case *ast.AssignStmt:
+			for _, l := range x.Lhs {
+				if se, ok := l.(*ast.SelectorExpr); ok {
+					out = append(out, "set:"+se.Sel.Name)
+				} else {
+					out = append(out, "set:"+exprName(l))
+				}
+			}
+		case *ast.ExprStmt:
+			if ce, ok := x.X.(*ast.CallExpr); ok {
+				out = append(out, "call:"+exprName(ce.Fun))
+			} else {
+				out = append(out, "stmt")
+			}
+		case *ast.ReturnStmt:
+			out = append(out, "return")
+		case *ast.IfStmt:
+			out = append(out, "if{")
+			out = append(out, stmtShape(x.Body.List)...)
+			switch e := x.Else.(type) {
+			case *ast.BlockStmt:
+				out = append(out, "}else{")
+				out = append(out, stmtShape(e.List)...)
+			case *ast.IfStmt:
+				out = append(out, "}else{")
+				out = append(out, stmtShape([]ast.Stmt{e})...)
+			}
+			out = append(out, "}")
+		default:
+			out = append(out, "stmt")
+		}
+	}
+	return out
+}
+
+// sliceParamSinks: fd's first parameter of slice type; every call (other than the header-only builtins len/cap)
+// that has an argument mentioning it is a sink "recv.Sel"; every assignment whose right-hand side mentions it
+// and whose left-hand side is a field is a sink "store:<field>"; returning it is "return". Re-slicing,
+// indexing and conversions of the parameter count as mentions (they alias the same array) — except inside
+// `append([]T(nil), p...)` / `copy(dst, p)`, which are reported as the sinks "append" / "copy".
+func sliceParamSinks(fd *ast.FuncDecl) ([]string, error) {
+	var param string
+	for _, f := range fd.Type.Params.List {
+		if _, ok := f.Type.(*ast.ArrayType); ok && len(f.Names) > 0 {
+			param = f.Names[0].Name
+			break
+		}
+	}
+	if param == "" {
+		return nil, fmt.Errorf("no slice parameter")
+	}
+	mentions := func(e ast.Node) bool {
+		found := false
+		ast.Inspect(e, func(n ast.Node) bool {
+			if ce, ok := n.(*ast.CallExpr); ok {
+				if id, ok := ce.Fun.(*ast.Ident); ok && (id.Name == "len" || id.Name == "cap") {
+					return false
+				}
+			}
+			if id, ok := n.(*ast.Ident); ok && id.Name == param {
+				found = true
+			}
+			return !found
+		})
+		return found
+	}
+	var out []string
+	ast.Inspect(fd.Body, func(n ast.Node) bool {
+		switch x := n.(type) {
+		case *ast.CallExpr:
+			if id, ok := x.Fun.(*ast.Ident); ok && (id.Name == "len" || id.Name == "cap") {
+				return false
+			}
+			for _, a := range x.Args {
+				// direct mention only: an argument that is itself a call is reported by that call
+				if _, isCall := a.(*ast.CallExpr); isCall {
+					continue
+				}
+				if mentions(a) {
+					out = append(out, exprName(x.Fun))
+					break
+				}
+			}
+		case *ast.AssignStmt:
+			for i, r := range x.Rhs {
+				if _, isCall := r.(*ast.CallExpr); isCall || !mentions(r) {
+					continue
+				}
+				name := "local"
+				if i < len(x.Lhs) {
+					if se, ok := x.Lhs[i].(*ast.SelectorExpr); ok {
+						name = "store:" + se.Sel.Name
+					} else if id, ok := x.Lhs[i].(*ast.Ident); ok {
+						name = "local:" + id.Name
+					}
+				}
+				out = append(out, name)
+			}
+		case *ast.RangeStmt:
+			if mentions(x.X) {
+				out = append(out, "range")
+			}
+		case *ast.ReturnStmt:
+			for _, r := range x.Results {
+				if _, isCall := r.(*ast.CallExpr); !isCall && mentions(r) {
+					out = append(out, "return")
+				}
+			}
+		}
+		return true
+	})
+	return out, nil
 }
 
 // nextCompareIsWide inspects the first `if` of TSDDecoder.Next: `a+b <= c`; wide = both summands are int(...) conversions.
